@@ -46,6 +46,35 @@ MUTANTS = [
     ("c13_require_none_default", ["C13"], "bt/algos.py", "        if item is None:\n            return self.if_none", "        if item is None:\n            return False"),
     ("c13_oob_absolute_deviation", ["C13"], "bt/algos.py", "                deviation = abs((c.weight - targets[cname]) / targets[cname])", "                deviation = abs(c.weight - targets[cname])"),
     ("c13_stack_result_of_run_always", ["C13"], "bt/core.py", "                    if algo.run_always:\n                        algo(target)", "                    if algo.run_always:\n                        res = algo(target)"),
+    # ---- C14
+    ("c14_selectall_allows_zero", ["C14"], "bt/algos.py", "            if self.include_negative:\n                target.temp[\"selected\"] = list(universe.index)\n            else:\n                target.temp[\"selected\"] = list(universe[universe > 0].index)\n        return True\n\n\nclass SelectThese", "            if self.include_negative:\n                target.temp[\"selected\"] = list(universe.index)\n            else:\n                target.temp[\"selected\"] = list(universe[universe >= 0].index)\n        return True\n\n\nclass SelectThese"),
+    ("c14_hasdata_strict_count", ["C14"], "bt/algos.py", "        cnt = cnt[cnt >= self.min_count]", "        cnt = cnt[cnt > self.min_count]"),
+    ("c14_hasdata_window_open", ["C14"], "bt/algos.py", "        filt = target.universe.loc[target.now - self.lookback :, selected]", "        filt = target.universe.loc[:, selected]"),
+    ("c14_selectn_one_more", ["C14"], "bt/algos.py", "        sel = list(stat[:keep_n].index)", "        sel = list(stat[: keep_n + (1 if keep_n > 2 else 0)].index)"),
+    ("c14_selectn_percent_ceil", ["C14"], "bt/algos.py", "            keep_n = int(self.n * len(stat))", "            keep_n = int(round(self.n * len(stat)))"),
+    ("c14_totalreturn_ignores_lag_end", ["C14", "C04"], "bt/algos.py", "        prc = target.universe.loc[t0 - self.lookback : t0, selected]\n        target.temp[\"stat\"] = prc.calc_total_return()", "        prc = target.universe.loc[t0 - self.lookback :, selected]\n        target.temp[\"stat\"] = prc.calc_total_return()"),
+    ("c14_setstat_ignores_lag", ["C14"], "bt/algos.py", "        target.temp[\"stat\"] = stat.loc[t0]", "        target.temp[\"stat\"] = stat.loc[target.now] if target.now in stat.index else stat.loc[t0]"),
+    ("c14_where_skips_tradability", ["C14"], "bt/algos.py", "            if not self.include_no_data:\n                universe = target.universe.loc[target.now, list(selected)].dropna()", "            if self.include_negative:\n                universe = target.universe.loc[target.now, list(selected)].dropna()"),
+    ("c14_randomly_keeps_negative", ["C14"], "bt/algos.py", "                sel = list(universe[universe > 0].index)\n\n        if self.n is not None:", "                sel = list(universe.index)\n\n        if self.n is not None:"),
+    ("c14_active_ignores_rolled", ["C14", "C20"], "bt/algos.py", "        selected = [s for s in selected if s not in set.union(rolled, closed)]", "        selected = [s for s in selected if s not in closed]"),
+    ("c14_regex_match", ["C14"], "bt/algos.py", "        selected = [s for s in selected if self.regex.search(s)]", "        selected = [s for s in selected if self.regex.match(s)]"),
+    ("c14_types_ignores_exclude", ["C14"], "bt/algos.py", "if isinstance(sec, self.include_types) and not isinstance(sec, self.exclude_types)]", "if isinstance(sec, self.include_types)]"),
+    ("c14_otr_first_row", ["C14"], "bt/algos.py", "        resolved = on_the_run.loc[target.now, aliases].tolist()", "        resolved = on_the_run.iloc[-1][aliases].tolist()"),
+    ("c14_these_ignores_negative_flag", ["C14"], "bt/algos.py", "            universe = target.universe.loc[target.now, self.tickers].dropna()\n            if self.include_negative:", "            universe = target.universe.loc[target.now, self.tickers].dropna()\n            if True:"),
+    # ---- C15
+    ("c15_equal_n_plus_1", ["C15"], "bt/algos.py", "            w = 1.0 / n\n", "            w = 1.0 / (n + 1) if n > 3 else 1.0 / n\n"),
+    ("c15_specified_no_copy", ["C15"], "bt/algos.py", "        target.temp[\"weights\"] = self.weights.copy()", "        target.temp[\"weights\"] = self.weights"),
+    ("c15_invvol_ignores_lag", ["C15", "C04"], "bt/algos.py", "        prc = target.universe.loc[t0 - self.lookback : t0, selected]\n        tw = bt.ffn.calc_inv_vol_weights(prc.to_returns().dropna())", "        prc = target.universe.loc[t0 - self.lookback :, selected]\n        tw = bt.ffn.calc_inv_vol_weights(prc.to_returns().dropna())"),
+    ("c15_erc_window_full", ["C15"], "bt/algos.py", "        prc = target.universe.loc[t0 - self.lookback : t0, selected]\n        tw = bt.ffn.calc_erc_weights(", "        prc = target.universe.loc[:t0, selected]\n        tw = bt.ffn.calc_erc_weights("),
+    ("c15_limitdeltas_uses_target_sign", ["C15"], "bt/algos.py", "                if abs(delta) > self.limit:\n                    tw[k] = cur + (self.limit * np.sign(delta))", "                if abs(delta) > self.limit:\n                    tw[k] = cur + self.limit"),
+    ("c15_limitdeltas_dict_ignored", ["C15"], "bt/algos.py", "                    if abs(delta) > lmt:\n                        tw[k] = cur + (lmt * np.sign(delta))", "                    if abs(delta) > 2 * lmt:\n                        tw[k] = cur + (lmt * np.sign(delta))"),
+    ("c15_limitweights_infeasible_passthrough", ["C15"], "bt/algos.py", "        if self.limit < 1.0 / len(tw):\n            tw = {}", "        if self.limit < 0.5 / len(tw):\n            tw = {}"),
+    ("c15_targetvol_no_annualization", ["C15"], "bt/algos.py", "        vol = np.sqrt(np.matmul(weights.values.T, np.matmul(covar.values, weights.values)) * self.annualization_factor)\n\n        # a scalar", "        vol = np.sqrt(np.matmul(weights.values.T, np.matmul(covar.values, weights.values)) * 252)\n\n        # a scalar"),
+    ("c15_pte_ge", ["C15"], "bt/algos.py", "        if PTE_vol > self.PTE_volatility_cap:\n            return True", "        if PTE_vol > 2 * self.PTE_volatility_cap:\n            return True"),
+    ("c15_pte_ignores_targets", ["C15"], "bt/algos.py", "            if c in target_weights:\n                weights[c] -= target_weights[c]", "            if c in target_weights and c in current_weights:\n                weights[c] -= target_weights[c]"),
+    ("c15_scale_abs", ["C15"], "bt/algos.py", "{k: self.scale * w for k, w in target.temp[\"weights\"].items()}", "{k: abs(self.scale) * w for k, w in target.temp[\"weights\"].items()}"),
+    ("c15_weightarget_keeps_nan", ["C15"], "bt/algos.py", "            target.temp[\"weights\"] = w.dropna()", "            target.temp[\"weights\"] = w.fillna(0.0)"),
+    ("c15_random_sum_ignored", ["C15"], "bt/algos.py", "            rw = bt.ffn.random_weights(n, self.bounds, self.weight_sum)", "            rw = bt.ffn.random_weights(n, self.bounds, 1.0)"),
     # ---- C08
     ("c08_fee_reset_every_update", ["C08", "C07"], "bt/core.py", "        # update now\n        self.now = date\n        if inow is None:\n            if self.now == 0:\n                inow = 0\n            else:\n                inow = self.data.index.get_loc(date)\n\n        # update children if any and calculate value", "        # update now\n        self.now = date\n        self._last_fee = 0.0\n        if inow is None:\n            if self.now == 0:\n                inow = 0\n            else:\n                inow = self.data.index.get_loc(date)\n\n        # update children if any and calculate value"),
     ("c08_outlay_row_accumulates", ["C08", "C07"], "bt/core.py", "            self._outlays.array[inow] += self._outlay\n            # reset outlay back to 0\n            self._outlay = 0\n", "            self._outlays.array[inow] += self._outlay\n"),
